@@ -136,3 +136,7 @@ def run(repo: Repo, rep: Report, tier: str) -> None:
             rep.ok("R18.5", f"{cls}.no_copy_collections = {got}", None)
         else:
             rep.violation("R18.5", ci.key, f"{cls}.no_copy_collections = {got}", f"documented no-copy list is {want['no_copy']}")
+    # rules of sibling properties that are necessary conditions of this one as well (same rule ids)
+    from ..core.report import Only
+    from . import c14 as _c14
+    _c14._ownership(repo, Only(rep, {"R14.8", "R14.9"}))
